@@ -126,5 +126,7 @@ def jobs(tier):
         js.append(dict(name=f'H1a:select_mux:k{k}', fn='h_select_mux', params=dict(k=k)))
     for k in ks:
         js.append(dict(name=f'H1c:derived:k{k}', fn='h_derived', params=dict(k=k)))
+    for k in ks:
+        js.append(dict(name=f'H1c:trx:k{k}', module='harness.elems', fn='h_trx', params=dict(k=k, n_added=0, props=('C01',))))
     js += elems.jobs_c01(tier)
     return js
